@@ -179,6 +179,7 @@ def long_scripts(rng, quick):
     add("cchist", {"twcc": 1}, 80000 * m, 6, ns=1)
     add("rtpfb", {"twcc": 0}, 60000 * m, 8, ns=2, fb=100, thens=["none", "drain", "rebind0", "fresh0"])
     add("rtpfb", {"twcc": 1}, 60000 * m, 6, ns=1, fb=300, wls=["inorder", "loss", "burst"], thens=["none", "drain"])
+    add("rtpfb", {"twcc": 1}, 20000 * m, 6, ns=1, fb=200, wls=["dup", "mix", "reorder", "dup"], thens=["none", "drain"])   # numbers sent twice
     add("rtpfb", {"twcc": 0}, 3000, 2, ns=1, fb=0)                                                      # known finding
     add("rrecv", {}, 70000 * m, 8, ns=3)
     add("rsend", {}, 70000 * m, 8, ns=3)
